@@ -16,7 +16,7 @@ def templates(rnd):
     syms = [f"S{k}" for k in range(r)]
     d = rnd.choice(DT)
     num = ops.base(d) not in ("bool",)
-    k = rnd.choice(["ew2", "ew2", "ew2mixed", "ew2mixed", "reduce", "reduce", "layout", "getitem", "sort", "cumsum", "where", "program", "unique", "matmul", "concat", "allany", "roll", "take_lazyidx"])
+    k = rnd.choice(["ew2", "ew2", "ew2mixed", "ew2mixed", "bcast", "bcast", "reduce", "reduce", "layout", "getitem", "sort", "cumsum", "where", "program", "unique", "matmul", "concat", "allany", "roll", "take_lazyidx"])
     bc = {}   # symbol -> symbol it may broadcast against (fed 1 or equal)
     if k == "ew2":
         f = rnd.choice(["add", "subtract", "multiply", "maximum" if False else "less", "equal", "logical_and" if d == "bool" else "add"])
@@ -26,6 +26,13 @@ def templates(rnd):
         return f"out = ndx.{f}(x, y)", {"x": syms, "y": ys}, {"x": d, "y": d}, bc
     if k == "ew2" and False:
         pass
+    if k == "bcast":
+        ys = [s + "b" for s in syms][rnd.randint(0, r - 1):]
+        for s in ys:
+            bc[s] = s[:-1]
+        impl = rnd.choice(["out = ndx.broadcast_arrays(x, y)", "out = ndx.broadcast_arrays(y, x)", "out = ndx.broadcast_to(y, nda.shape(x))",
+                           "u_, v_ = ndx.broadcast_arrays(x, y); out = ndx.stack([u_, v_])"])
+        return impl, {"x": syms, "y": ys}, {"x": d, "y": d}, bc
     if k == "ew2mixed":
         # one nullable and one non-nullable operand; either may be the one that is broadcast up
         if not num or d.startswith("n"):
